@@ -26,6 +26,10 @@ def run(ctx, rep):
     _strunits.strip_once(F, rep)
     _strunits.marker_radix(F, rep)
     domain_probes(F, rep)
+    # `+` concatenation and `*` repetition are computed by the interpreter's operator implementations (text of a number = its value's, not its spelling's):
+    # the folder hands back nothing but Numbers out of the compared operator tables
+    from props import C06 as _c06
+    _c06.only_table_operators_are_folded(F, rep, rule="C14.fold-scope")
     if _casts is not None:
         _casts.run_c14(F, rep)
 
